@@ -28,10 +28,12 @@ func newRecProc() *recProc { return &recProc{priv: map[int][]byte{}} }
 func (p *recProc) PrivateSend(dest int, data []byte) {
 	p.priv[dest] = append([]byte{}, data...)
 	p.events = append(p.events, fmt.Sprintf("priv(%d,%x)", dest, data))
+	sim.Scribble(data) // the transport recycles the buffer it was handed
 }
 func (p *recProc) Broadcast(data []byte) {
 	p.bcast = append(p.bcast, append([]byte{}, data...))
 	p.events = append(p.events, fmt.Sprintf("bcast(%x)", data))
+	sim.Scribble(data)
 }
 func (p *recProc) Disqualify(i int, log string) {
 	p.events = append(p.events, fmt.Sprintf("disqualify(%d)", i))
